@@ -66,20 +66,27 @@ Section Brackets.
   Variable ix : indexer.
   Variables unicode utf16 : bool.
   Variable h : hay.
+  Variable okp : nat -> Prop.
   Notation IR := (ir_results ix unicode utf16 h).
-  Notation ref := (ref ix unicode utf16 h).
-  Notation PRel := (PRel ix unicode utf16 h).
-  (* the text: elements are code points; a byte below 128 is the element at that place and an element below 128 is
-     the byte; a byte from 128 up belongs to an element from 128 up and conversely *)
-  Hypothesis Hcp : forall fwd p c p', cnext ix fwd h p = Ok (Some (c, p')) -> c <= CODE_POINT_MAX.
-  Hypothesis Hbyte1 : forall fwd q,
+  Notation ref := (ref ix unicode utf16 h okp).
+  Notation al := (al ix unicode utf16 h okp).
+  Notation lclo := (lclo ix unicode utf16 h okp).
+  Notation PRel := (PRel ix unicode utf16 h okp).
+  Notation fleO := (fleO okp).
+  Notation sclo := (sclo okp).
+  (* the text, at the well-formed positions: reading an element leads to a well-formed position; elements are code
+     points; a byte below 128 is the element at that place and an element below 128 is the byte; a byte from 128 up
+     belongs to an element from 128 up and conversely *)
+  Hypothesis Hk1 : forall fwd p c p', okp p -> cnext ix fwd h p = Ok (Some (c, p')) -> okp p'.
+  Hypothesis Hcp : forall fwd p c p', okp p -> cnext ix fwd h p = Ok (Some (c, p')) -> c <= CODE_POINT_MAX.
+  Hypothesis Hbyte1 : forall fwd q, okp q ->
     match next_byte fwd h q with
     | Ok (Some (b, q1)) => if b <? 128 then cnext ix fwd h q = Ok (Some (b, q1))
                            else exists c q2, cnext ix fwd h q = Ok (Some (c, q2)) /\ 128 <= c
     | Ok None => cnext ix fwd h q = Ok None
     | Err _ => True
     end.
-  Hypothesis Hbyte2 : forall fwd q,
+  Hypothesis Hbyte2 : forall fwd q, okp q ->
     match cnext ix fwd h q with
     | Ok (Some (c, q2)) => if c <? 128 then next_byte fwd h q = Ok (Some (c, q2))
                            else exists b q1, next_byte fwd h q = Ok (Some (b, q1)) /\ 128 <= b
@@ -92,17 +99,38 @@ Section Brackets.
   Definition bytestep (fwd : bool) (test : N -> bool) (q : nat) : option (option nat) :=
     match byte_if fwd h q test with Ok r => Some r | Err _ => None end.
 
-  Lemma charstep_ext fwd t1 t2 : (forall c, c <= CODE_POINT_MAX -> t1 c = t2 c) -> forall q, charstep fwd t1 q = charstep fwd t2 q.
+  Lemma charstep_ext fwd t1 t2 : (forall c, c <= CODE_POINT_MAX -> t1 c = t2 c) ->
+    forall q, okp q -> charstep fwd t1 q = charstep fwd t2 q.
+  Proof.
+    intros Ht q Hq. unfold charstep, next_if. destruct (cnext ix fwd h q) as [e|[[c q']|]] eqn:Ec; cbn [bindR]; try reflexivity.
+    rewrite (Ht c (Hcp _ _ _ _ Hq Ec)). reflexivity.
+  Qed.
+
+  Lemma charstep_ext_all fwd t1 t2 : (forall c, t1 c = t2 c) -> forall q, charstep fwd t1 q = charstep fwd t2 q.
   Proof.
     intros Ht q. unfold charstep, next_if. destruct (cnext ix fwd h q) as [e|[[c q']|]] eqn:Ec; cbn [bindR]; try reflexivity.
-    rewrite (Ht c (Hcp _ _ _ _ Ec)). reflexivity.
+    rewrite (Ht c). reflexivity.
+  Qed.
+
+  Lemma charstep_clo fwd t : sclo (charstep fwd t).
+  Proof.
+    intros q q' Hq E. unfold charstep, next_if in E. destruct (cnext ix fwd h q) as [e|[[c q1]|]] eqn:Ec; cbn [bindR] in E; try discriminate.
+    destruct (t c); inversion E; subst. eapply Hk1; eauto.
+  Qed.
+
+  Lemma bytestep_clo fwd t : (forall v, 128 <= v -> t v = false) -> sclo (bytestep fwd t).
+  Proof.
+    intros Hhi q q' Hq E. unfold bytestep, byte_if in E. pose proof (Hbyte1 fwd q Hq) as Hb.
+    destruct (next_byte fwd h q) as [e|[[b q1]|]]; cbn [bindR] in E; try discriminate.
+    destruct (t b) eqn:Et; inversion E; subst.
+    destruct (N.ltb_spec b 128) as [Hl|Hl]; [eapply Hk1; eauto|rewrite (Hhi b Hl) in Et; discriminate].
   Qed.
 
   (* a test that only accepts values below 128 and agrees with the element test there *)
   Lemma byte_to_char fwd tb tc : (forall v, v < 128 -> tb v = tc v) -> (forall v, 128 <= v -> tb v = false /\ tc v = false) ->
-    fle (bytestep fwd tb) (charstep fwd tc).
+    fleO (bytestep fwd tb) (charstep fwd tc).
   Proof.
-    intros Hlo Hhi q o E. unfold bytestep, byte_if in E. unfold charstep, next_if. pose proof (Hbyte1 fwd q) as Hb.
+    intros Hlo Hhi q o Hq E. unfold bytestep, byte_if in E. unfold charstep, next_if. pose proof (Hbyte1 fwd q Hq) as Hb.
     destruct (next_byte fwd h q) as [e|[[b q1]|]]; cbn [bindR] in E; try discriminate.
     - destruct (N.ltb_spec b 128) as [Hl|Hl].
       + rewrite Hb. cbn [bindR]. rewrite <- (Hlo b Hl). exact E.
@@ -112,9 +140,9 @@ Section Brackets.
   Qed.
 
   Lemma char_to_byte fwd tb tc : (forall v, v < 128 -> tb v = tc v) -> (forall v, 128 <= v -> tb v = false /\ tc v = false) ->
-    fle (charstep fwd tc) (bytestep fwd tb).
+    fleO (charstep fwd tc) (bytestep fwd tb).
   Proof.
-    intros Hlo Hhi q o E. unfold charstep, next_if in E. unfold bytestep, byte_if. pose proof (Hbyte2 fwd q) as Hb.
+    intros Hlo Hhi q o Hq E. unfold charstep, next_if in E. unfold bytestep, byte_if. pose proof (Hbyte2 fwd q Hq) as Hb.
     destruct (cnext ix fwd h q) as [e|[[c q2]|]]; cbn [bindR] in E; try discriminate.
     - destruct (N.ltb_spec c 128) as [Hl|Hl].
       + rewrite Hb. cbn [bindR]. rewrite (Hlo c Hl). exact E.
@@ -142,22 +170,29 @@ Section Brackets.
       apply andb_true_iff in Hc as [_ Hc]. apply N.leb_le in Hc. lia.
   Qed.
 
-  Lemma bracket_step_char fwd b : fle (bracket_step fwd b) (charstep fwd (bracket_matches b)).
+  Lemma bracket_step_char fwd b : fleO (bracket_step fwd b) (charstep fwd (bracket_matches b)).
   Proof.
-    unfold bracket_step, bracket_as_ascii. destruct (br_invert b) eqn:Hi; [apply fle_refl|].
-    destruct (forallb (fun i => snd i <? 128) (br_ivs b)) eqn:Hall; [|apply fle_refl].
+    unfold bracket_step, bracket_as_ascii. destruct (br_invert b) eqn:Hi; [apply fleO_refl|].
+    destruct (forallb (fun i => snd i <? 128) (br_ivs b)) eqn:Hall; [|apply fleO_refl].
     apply byte_to_char; [|apply ascii_hi; assumption].
     intros v Hv. rewrite ascii_bitmap_eq by exact Hv. unfold bracket_matches. rewrite Hi. cbn [negb].
     change (cps_contains (br_ivs b) v) with (ivs_contains (br_ivs b) v). destruct (ivs_contains (br_ivs b) v); reflexivity.
   Qed.
 
-  Lemma char_bracket_step fwd b : fle (charstep fwd (bracket_matches b)) (bracket_step fwd b).
+  Lemma char_bracket_step fwd b : fleO (charstep fwd (bracket_matches b)) (bracket_step fwd b).
   Proof.
-    unfold bracket_step, bracket_as_ascii. destruct (br_invert b) eqn:Hi; [apply fle_refl|].
-    destruct (forallb (fun i => snd i <? 128) (br_ivs b)) eqn:Hall; [|apply fle_refl].
+    unfold bracket_step, bracket_as_ascii. destruct (br_invert b) eqn:Hi; [apply fleO_refl|].
+    destruct (forallb (fun i => snd i <? 128) (br_ivs b)) eqn:Hall; [|apply fleO_refl].
     apply char_to_byte; [|apply ascii_hi; assumption].
     intros v Hv. rewrite ascii_bitmap_eq by exact Hv. unfold bracket_matches. rewrite Hi. cbn [negb].
     change (cps_contains (br_ivs b) v) with (ivs_contains (br_ivs b) v). destruct (ivs_contains (br_ivs b) v); reflexivity.
+  Qed.
+
+  Lemma bracket_step_clo fwd b : sclo (bracket_step fwd b).
+  Proof.
+    unfold bracket_step. destruct (bracket_as_ascii b) as [bm|]; [|apply charstep_clo].
+    apply bytestep_clo. intros v Hv. unfold ascii_bitmap_contains.
+    replace (128 <=? v) with true by (symmetry; apply N.leb_le; exact Hv). reflexivity.
   Qed.
 
   (* the results and the single-step reading of a bracket node are its step function *)
@@ -177,76 +212,106 @@ Section Brackets.
     - eexists. split; [reflexivity|]. intro q. reflexivity.
   Qed.
 
+  Lemma al_bracket b : al (NBracket b).
+  Proof.
+    split.
+    - intros [|f] fwd [q G] r Hx E; [discriminate|]. rewrite bracket_ir in E.
+      destruct (bracket_step fwd b q) as [[q'|]|] eqn:Es; inversion E; subst; constructor; [|constructor].
+      eapply bracket_step_clo; eauto.
+    - intros lb fwd s Es. destruct (bracket_single lb fwd b) as [s0 [Es0 Hs0]]. rewrite Es0 in Es. inversion Es; subst s0.
+      intros q q' Hq E. rewrite Hs0 in E. eapply bracket_step_clo; eauto.
+  Qed.
+
   (* two bracket-like leaves whose step functions refine each other *)
-  Lemma ref_brackets fwd b b' : fle (bracket_step fwd b) (bracket_step fwd b') -> ref fwd (NBracket b) (NBracket b').
+  Lemma ref_brackets fwd b b' : fleO (bracket_step fwd b) (bracket_step fwd b') -> ref fwd (NBracket b) (NBracket b').
   Proof.
     intro Hs. split.
-    - apply (rres_fle ix unicode utf16 h fwd _ _ 0%nat). intros [|f] [q G] r E; [discriminate|].
+    - apply (rres_fleO ix unicode utf16 h okp fwd _ _ 0%nat). intros [|f] [q G] r Hx E; [discriminate|].
       rewrite Nat.add_0_r. rewrite bracket_ir in *.
-      destruct (bracket_step fwd b q) as [o|] eqn:Eo; [|discriminate]. rewrite (Hs q o Eo). exact E.
+      destruct (bracket_step fwd b q) as [o|] eqn:Eo; [|discriminate]. rewrite (Hs q o Hx Eo). exact E.
     - intros _. split; [reflexivity|]. intros s Es.
       destruct (bracket_single (negb fwd) fwd b) as [s0 [Es0 Hs0]]. rewrite Es0 in Es. inversion Es; subst s0.
       destruct (bracket_single (negb fwd) fwd b') as [s1 [Es1 Hs1]]. exists s1. split; [exact Es1|].
-      intros q o Eq. rewrite Hs1. apply Hs. rewrite <- Hs0. exact Eq.
+      intros q o Hq Eq. rewrite Hs1. apply Hs; [exact Hq|]. rewrite <- Hs0. exact Eq.
   Qed.
 
   Lemma ref_invert fwd inv ivs : cps_wf ivs = true ->
     ref fwd (NBracket (mkBracket inv ivs)) (NBracket (mkBracket (negb inv) (cps_inverted ivs))).
   Proof.
     intro Hw. apply ref_brackets.
-    eapply fle_trans; [apply bracket_step_char|]. eapply fle_trans; [|apply char_bracket_step].
-    intros q o E. rewrite <- E. symmetry. apply charstep_ext. intros c Hc. unfold bracket_matches. cbn [br_invert br_ivs].
+    eapply fleO_trans; [apply bracket_step_char|]. eapply fleO_trans; [|apply char_bracket_step].
+    intros q o Hq E. rewrite <- E. symmetry. apply charstep_ext; [|exact Hq]. intros c Hc. unfold bracket_matches. cbn [br_invert br_ivs].
     change (ivs_contains (cps_inverted ivs) c) with (cps_contains (cps_inverted ivs) c).
     change (ivs_contains ivs c) with (cps_contains ivs c).
     rewrite (inverted_contains ivs c Hw Hc). destruct (cps_contains ivs c); destruct inv; reflexivity.
   Qed.
 
   (* a character set of at most four characters *)
+  Definition charset_step (fwd : bool) (cs : list N) (q : nat) : option (option nat) :=
+    match cs with [] => Some None | _ => charstep fwd (list_contains cs) q end.
+
   Lemma charset_ir f fwd cs q G : (length cs <= 4)%nat -> IR (S f) (NCharSet cs) fwd (q, G) =
-    match (match cs with [] => Some None | _ => charstep fwd (list_contains cs) q end) with
-    | Some (Some q') => Some [(q', G)] | Some None => Some [] | None => None end.
+    match charset_step fwd cs q with Some (Some q') => Some [(q', G)] | Some None => Some [] | None => None end.
   Proof.
-    intro Hl. cbn [ir_results leaf_code]. unfold emit_char_set. destruct cs as [|c0 cs]; [reflexivity|].
+    intro Hl. cbn [ir_results leaf_code]. unfold emit_char_set, charset_step. destruct cs as [|c0 cs]; [reflexivity|].
     replace (4 <? length (c0 :: cs))%nat with false by (symmetry; apply Nat.ltb_ge; exact Hl).
-    cbn [run_insns match1]. unfold charstep.
-    rewrite <- (charstep_ext fwd (list_contains ((c0 :: cs) ++ repeat c0 (4 - length (c0 :: cs)))) (list_contains (c0 :: cs))
-                  (fun c _ => list_contains_pad (c0 :: cs) c0 _ c (or_introl eq_refl)) q) at 1.
+    cbn [run_insns match1].
+    rewrite <- (charstep_ext_all fwd (list_contains ((c0 :: cs) ++ repeat c0 (4 - length (c0 :: cs)))) (list_contains (c0 :: cs))
+                  (fun c => list_contains_pad (c0 :: cs) c0 _ c (or_introl eq_refl)) q).
     unfold charstep. destruct (next_if ix fwd h q _) as [e|[q'|]]; reflexivity.
+  Qed.
+
+  Lemma charset_single lb fwd cs : (length cs <= 4)%nat ->
+    exists s, single_step ix unicode h lb (NCharSet cs) fwd = Some s /\ forall q, s q = charset_step fwd cs q.
+  Proof.
+    intro Hl. unfold single_step, leaf_code, emit_char_set, charset_step. destruct cs as [|c0 cs].
+    - eexists. split; [reflexivity|]. intro q. reflexivity.
+    - replace (4 <? length (c0 :: cs))%nat with false by (symmetry; apply Nat.ltb_ge; exact Hl).
+      eexists. split; [reflexivity|]. intro q. cbn [run_insns match1].
+      rewrite <- (charstep_ext_all fwd (list_contains ((c0 :: cs) ++ repeat c0 (4 - length (c0 :: cs)))) (list_contains (c0 :: cs))
+                    (fun c => list_contains_pad (c0 :: cs) c0 _ c (or_introl eq_refl)) q).
+      unfold charstep. destruct (next_if ix fwd h q _) as [e|[q'|]]; reflexivity.
+  Qed.
+
+  Lemma charset_step_clo fwd cs : sclo (charset_step fwd cs).
+  Proof. unfold charset_step. destruct cs; [intros q q' _ E; discriminate E|apply charstep_clo]. Qed.
+
+  Lemma al_charset cs : (length cs <= 4)%nat -> al (NCharSet cs).
+  Proof.
+    intro Hl. split.
+    - intros [|f] fwd [q G] r Hx E; [discriminate|]. rewrite (charset_ir f fwd cs q G Hl) in E.
+      destruct (charset_step fwd cs q) as [[q'|]|] eqn:Es; inversion E; subst; constructor; [|constructor].
+      eapply charset_step_clo; eauto.
+    - intros lb fwd s Es. destruct (charset_single lb fwd cs Hl) as [s0 [Es0 Hs0]]. rewrite Es0 in Es. inversion Es; subst s0.
+      intros q q' Hq E. rewrite Hs0 in E. eapply charset_step_clo; eauto.
   Qed.
 
   Lemma ref_reduce fwd ivs : cps_wf ivs = true -> (length (bracket_chars ivs) <= 4)%nat ->
     ref fwd (NBracket (mkBracket false ivs)) (NCharSet (bracket_chars ivs)).
   Proof.
     intros Hw Hl.
-    assert (Hstep : forall q o, bracket_step fwd (mkBracket false ivs) q = Some o ->
-              (match bracket_chars ivs with [] => Some None | _ => charstep fwd (list_contains (bracket_chars ivs)) q end) = Some o).
-    { intros q o E. apply bracket_step_char in E.
-      rewrite (charstep_ext fwd (bracket_matches (mkBracket false ivs)) (list_contains (bracket_chars ivs))) in E.
-      2:{ intros c _. unfold bracket_matches. cbn [br_invert br_ivs negb].
+    assert (Hstep : fleO (bracket_step fwd (mkBracket false ivs)) (charset_step fwd (bracket_chars ivs))).
+    { intros q o Hq E. apply bracket_step_char in E; [|exact Hq].
+      rewrite (charstep_ext_all fwd (bracket_matches (mkBracket false ivs)) (list_contains (bracket_chars ivs))) in E.
+      2:{ intros c. unfold bracket_matches. cbn [br_invert br_ivs negb].
           rewrite (bracket_chars_contains c ivs 0 Hw). change (cps_contains ivs c) with (ivs_contains ivs c).
           destruct (ivs_contains ivs c); reflexivity. }
-      destruct (bracket_chars ivs) as [|c0 cs] eqn:Ecs; [|exact E].
+      unfold charset_step. destruct (bracket_chars ivs) as [|c0 cs] eqn:Ecs; [|exact E].
       unfold charstep, next_if in E. destruct (cnext ix fwd h q) as [e|[[c q']|]]; cbn [bindR] in E; try discriminate;
         inversion E; reflexivity. }
     split.
-    - apply (rres_fle ix unicode utf16 h fwd _ _ 0%nat). intros [|f] [q G] r E; [discriminate|].
+    - apply (rres_fleO ix unicode utf16 h okp fwd _ _ 0%nat). intros [|f] [q G] r Hx E; [discriminate|].
       rewrite Nat.add_0_r. rewrite bracket_ir in E. rewrite (charset_ir f fwd _ q G Hl).
       destruct (bracket_step fwd (mkBracket false ivs) q) as [o|] eqn:Eo; [|discriminate].
-      rewrite (Hstep q o Eo). exact E.
+      rewrite (Hstep q o Hx Eo). exact E.
     - intros _.
       assert (Hle : (4 <? length (bracket_chars ivs))%nat = false) by (apply Nat.ltb_ge; exact Hl).
       split.
       + unfold l1_body_ok, leaf_code, emit_char_set. destruct (bracket_chars ivs); [reflexivity|]. rewrite Hle. reflexivity.
       + intros s Es. destruct (bracket_single (negb fwd) fwd (mkBracket false ivs)) as [s0 [Es0 Hs0]].
         rewrite Es0 in Es. inversion Es; subst s0.
-        unfold single_step, leaf_code, emit_char_set. destruct (bracket_chars ivs) as [|c0 cs] eqn:Ecs.
-        * eexists. split; [reflexivity|]. intros q o Eq. rewrite Hs0 in Eq. pose proof (Hstep q o Eq) as Ho.
-          cbn in Ho. inversion Ho; subst. reflexivity.
-        * rewrite Hle. eexists. split; [reflexivity|]. intros q o Eq. rewrite Hs0 in Eq. pose proof (Hstep q o Eq) as Ho.
-          cbn [run_insns match1].
-          rewrite <- (charstep_ext fwd (list_contains ((c0 :: cs) ++ repeat c0 (4 - length (c0 :: cs)))) (list_contains (c0 :: cs))
-                        (fun c _ => list_contains_pad (c0 :: cs) c0 _ c (or_introl eq_refl)) q) in Ho.
-          unfold charstep in Ho. destruct (next_if ix fwd h q _) as [e|[q'|]]; [discriminate|exact Ho|exact Ho].
+        destruct (charset_single (negb fwd) fwd (bracket_chars ivs) Hl) as [s1 [Es1 Hs1]]. exists s1. split; [exact Es1|].
+        intros q o Hq Eq. rewrite Hs1. apply Hstep; [exact Hq|]. rewrite <- Hs0. exact Eq.
   Qed.
 
   Lemma brackets_sound lb n a : simplify_brackets lb n = Ok a -> PRel lb n (act_node a n).
@@ -256,16 +321,17 @@ Section Brackets.
     destruct inv.
     - (* inverted: only the complement may be taken *)
       destruct (cps_inverted_interval_count ivs <? length ivs)%nat; inversion E; subst; [|apply PRel_refl].
-      intro Hq. cbn [qok br_ivs] in Hq. cbn [act_node]. split; [apply (ref_invert (negb lb) true ivs Hq)|].
-      split; [cbn [qok br_ivs]; apply inverted_wf; exact Hq|reflexivity].
+      intros Hq Ha. cbn [qok br_ivs] in Hq. cbn [act_node]. split; [apply (ref_invert (negb lb) true ivs Hq)|].
+      split; [cbn [qok br_ivs]; apply inverted_wf; exact Hq|]. split; [apply al_bracket|reflexivity].
     - destruct (MAX_CHAR_SET_LENGTH <? fold_left (fun acc i => acc + iv_count i) ivs 0) eqn:Ht.
       + destruct (cps_inverted_interval_count ivs <? length ivs)%nat; inversion E; subst; [|apply PRel_refl].
-        intro Hq. cbn [qok br_ivs] in Hq. cbn [act_node]. split; [apply (ref_invert (negb lb) false ivs Hq)|].
-        split; [cbn [qok br_ivs]; apply inverted_wf; exact Hq|reflexivity].
-      + inversion E; subst. fold (bracket_chars ivs). intro Hq. cbn [qok br_ivs] in Hq. cbn [act_node].
+        intros Hq Ha. cbn [qok br_ivs] in Hq. cbn [act_node]. split; [apply (ref_invert (negb lb) false ivs Hq)|].
+        split; [cbn [qok br_ivs]; apply inverted_wf; exact Hq|]. split; [apply al_bracket|reflexivity].
+      + inversion E; subst. fold (bracket_chars ivs). intros Hq Ha. cbn [qok br_ivs] in Hq. cbn [act_node].
         apply N.ltb_ge in Ht. unfold MAX_CHAR_SET_LENGTH in Ht. rewrite <- bracket_chars_length in Ht.
         assert (Hl : (length (bracket_chars ivs) <= 4)%nat) by lia.
-        split; [apply (ref_reduce (negb lb) ivs Hq Hl)|]. split; [cbn [qok]; apply Nat.leb_le; exact Hl|reflexivity].
+        split; [apply (ref_reduce (negb lb) ivs Hq Hl)|]. split; [cbn [qok]; apply Nat.leb_le; exact Hl|].
+        split; [apply al_charset; exact Hl|reflexivity].
   Qed.
 
   Theorem brackets_pass_sound fuel n n' : run_to_fixpoint simplify_brackets fuel n = Ok n' -> PRel false n n'.
